@@ -1074,9 +1074,9 @@ def run(tier: str, replay: str | None = None):
                 want = {"rets": sorted(want_r), "errs": sorted(want_e)}
                 if want != dset:
                     sup = set(dset["rets"]) >= want_r and set(dset["errs"]) >= want_e
-                    if sup and any_conversion_guard(case, call) and m is not None and m == dset:
+                    if any_conversion_guard(case, call) and m is not None and m == dset:
                         known.append(("C20-any-conversion-superset", ci, ki))
-                    elif sup and any_conversion_guard(case, call) and m is None and not model_ok:
+                    elif any_conversion_guard(case, call) and m is None and not model_ok:
                         undecided += 1
                     else:
                         failing.append((ci, ki, "union call is not the union of the member calls" + (" (superset)" if sup else " (members' results missing: unsound)"), dset, want))
